@@ -102,6 +102,11 @@ structure PState where
   pub : Pub := {}
   compiled : Option Compiled := none
   inst : Option Installed := none
+  /-- number of updates that rewrote `dispatch_data` so far -/
+  epoch : Nat := 0
+  /-- what `static_type<Obj>()` answers in the harness: the class whose static v-table pointer cell
+      is `Policy::static_vptr<Obj>` (0 = none) -/
+  staticId : Nat := 0
 
 def PState.registry (s : PState) : Registry :=
   { classes := s.classes.map (·.2), methods := s.methods }
@@ -123,12 +128,7 @@ def PState.update (s : PState) (mults : List UInt64) : PState × UpdateOut × Li
       | .fault w => ({ s with compiled := none, inst := none }, .raised (.fault w), mults)
       | .hashFailed p att b rest =>
         ({ s with compiled := none, inst := none, pub := p }, .raised (.hashSearch att b), rest)
-      | .ok p _ rest => ({ s with compiled := some c, inst := some inst, pub := p }, .ok, rest)
-
-inductive CallOut
-  | ran (defId : Nat)
-  | raised (e : CallErr)
-deriving Repr, DecidableEq
+      | .ok p _ rest => ({ s with compiled := some c, inst := some inst, pub := p, epoch := s.epoch + 1 }, .ok, rest)
 
 /-- v-table pointer of a `VSlot` at call time -/
 def slotVptr (inst : Installed) : VSlot → Except CallErr Int
@@ -136,24 +136,115 @@ def slotVptr (inst : Installed) : VSlot → Except CallErr Int
   | .null => .error (.fault "null v-table pointer")
   | .stale => .error (.fault "dangling v-table pointer")
 
+/-- the v-table pointer part of a `virtual_ptr` -/
+inductive VRef
+  | direct (s : VSlot) (epoch : Nat)   -- a pointer value copied when the `virtual_ptr` was made
+  | cell (key : Nat)                   -- indirect: address of the class's static v-table pointer cell
+deriving Repr, DecidableEq
+
+structure VPtr where
+  obj : Nat          -- dynamic type id of the pointee
+  ref : VRef
+deriving Repr, DecidableEq
+
+/-- content of the static v-table pointer cell of the class with `type_index` `key` -/
+def PState.cellSlot (s : PState) (key : Nat) : VSlot :=
+  match s.compiled with
+  | none => .null
+  | some c =>
+    match classIdx c.graph.heads key with
+    | some ci => .cur ci
+    | none => if s.epoch == 0 then .null else .stale
+
+/-- `vptrs[index]` as the `virtual_ptr` constructor reads it (`operator[]`: a map inserts a null
+    entry for an absent key; the model keeps the map unchanged since a null entry is unobservable
+    through registered ids) -/
+def lookupForVptr (cfg : Cfg) (p : Pub) (id : Nat) : Except CallErr VSlot :=
+  if cfg.vptrMap then
+    match p.map.find? (fun e => e.1 == id) with
+    | some e => .ok e.2
+    | none => .ok .null
+  else lookupVptr cfg p id
+
+/-- `virtual_ptr<Obj, Policy>(obj)`: from a reference to an object of dynamic type `id` -/
+def PState.mkVPtr (s : PState) (id : Nat) : Except CallErr VPtr :=
+  if id == s.staticId && s.staticId != 0 then
+    -- dynamic type == static type: the class's own cell, after the registered-class check of
+    -- checked policies
+    let chk : Except CallErr Unit :=
+      if s.cfg.hash == .checked then
+        match checkedIdx s.pub.hash s.pub.control (UInt64.ofNat id) with
+        | none => .error (.unknownClass id)
+        | some _ => .ok ()
+      else .ok ()
+    match chk with
+    | .error e => .error e
+    | .ok _ =>
+      if s.cfg.indirect then .ok { obj := id, ref := .cell (s.cfg.proj id) }
+      else .ok { obj := id, ref := .direct (s.cellSlot (s.cfg.proj id)) s.epoch }
+  else
+    match lookupForVptr s.cfg s.pub id with
+    | .error e => .error e
+    | .ok sl =>
+      if s.cfg.indirect then
+        match sl with
+        | .cur _ => .ok { obj := id, ref := .cell (s.cfg.proj id) }
+        | _ => .error (.fault "indirect_vptrs entry of an unregistered id")
+      else .ok { obj := id, ref := .direct sl s.epoch }
+
+/-- `virtual_ptr<Obj, Policy>::final(obj)` -/
+def PState.mkFinal (s : PState) (id : Nat) : Except CallErr VPtr :=
+  if s.cfg.checks && id != s.staticId then .error (.methodTable id)
+  else if s.cfg.indirect then .ok { obj := id, ref := .cell (s.cfg.proj s.staticId) }
+  else .ok { obj := id, ref := .direct (s.cellSlot (s.cfg.proj s.staticId)) s.epoch }
+
+/-- `_vptr()` at call time -/
+def PState.derefVPtr (s : PState) (inst : Installed) (v : VPtr) : Except CallErr Int :=
+  match v.ref with
+  | .direct sl e =>
+    if e != s.epoch then .error (.fault "virtual_ptr used after a later update (direct v-table pointer)")
+    else slotVptr inst sl
+  | .cell key => slotVptr inst (s.cellSlot key)
+
+inductive CallOut
+  | ran (defId : Nat)
+  | raised (e : CallErr)
+deriving Repr, DecidableEq
+
 /-- the payload the error handlers build: ids of the virtual arguments only, at most 16 -/
 def errorTypes (args : List (Kind × Nat)) : List Nat :=
   ((args.filter (fun a => a.1.isVirtual)).map (·.2)).take 16
 
-/-- a call through `method::operator()` with plain (non-`virtual_ptr`) routes:
-    `args` pairs each parameter kind with the dynamic type id of the argument -/
-def PState.call (s : PState) (key : Nat) (args : List (Kind × Nat)) : CallOut :=
+/-- how the harness produces a `virtual_ptr` argument: from a reference, with `final`, or a
+    `virtual_ptr` made earlier -/
+inductive Route
+  | ref
+  | final
+deriving DecidableEq, Repr
+
+/-- a call through `method::operator()`: `args` pairs each parameter kind with the dynamic type
+    id of the argument; `virtual_ptr` arguments are built on the spot by `route`, or taken from
+    `pre` (position ↦ an existing `virtual_ptr`) -/
+def PState.callWith (s : PState) (key : Nat) (args : List (Kind × Nat)) (route : Route)
+    (pre : List (Nat × VPtr)) : CallOut :=
   match s.compiled, s.inst with
   | some c, some inst =>
     match (List.zipIdx c.methods).find? (fun e => e.1.key == key) with
     | none => .raised (.fault "no such method")
     | some (m, mi) =>
-      let lookups : Except CallErr (List (Kind × Int)) := args.mapM (fun (k, id) =>
-        if k.isVirtual then do
+      let lookups : Except CallErr (List (Kind × Int)) := (List.zipIdx args).mapM (fun ((k, id), pos) =>
+        match k with
+        | .virt => do
           let sl ← lookupVptr s.cfg s.pub id
           let v ← slotVptr inst sl
           pure (k, v)
-        else pure (k, (0 : Int)))
+        | .vptr => do
+          let vp ← match pre.find? (fun e => e.1 == pos) with
+            | some e => pure e.2
+            | none => if route == .final then s.mkFinal id else s.mkVPtr id
+          let v ← s.derefVPtr inst vp
+          pure (k, v)
+        | .nonvirt => pure (k, (0 : Int)))
       match lookups with
       | .error e => .raised e
       | .ok vargs =>
@@ -170,5 +261,8 @@ def PState.call (s : PState) (key : Nat) (args : List (Kind × Nat)) : CallOut :
           | other => .raised (.resolution other (m.vp.length) (errorTypes args))
         | .ok _ => .raised (.fault "call through a word that is not a function pointer")
   | _, _ => .raised (.fault "call without a completed update")
+
+def PState.call (s : PState) (key : Nat) (args : List (Kind × Nat)) : CallOut :=
+  s.callWith key args .ref []
 
 end Yomm2
